@@ -120,6 +120,8 @@ def run_replay(ctx, replay):
         env["VERIF_JOBS"] = ctx.write_ndjson("jobs.ndjson", [rp["job"]])
     elif kind in ("single", "set", "multi"):
         case = dict(rp["case"], variant=rp.get("variant", 0))
+        if "spelling" in rp:
+            case["spelling"] = rp["spelling"]
         name = {"single": "VERIF_CASES", "set": "VERIF_SETCASES", "multi": "VERIF_MULTICASES"}[kind]
         env[name] = ctx.write_ndjson("case.ndjson", [case])
     else:
